@@ -506,4 +506,120 @@ theorem spec2_range (hb : E .budget) (cfg : CheckCfg) (c : SCfg) (cs : List OTy)
         · rw [he]; exact ⟨_, _, rfl, rangeElems_ints lo hi'⟩
       · cases hrule
 
+/-! ### the loops of the collection builtins -/
+
+/-- outcome of one loop step: continue with an accumulator satisfying `Inv`, stop with a result
+satisfying `Res`, or fail with a tolerated failure -/
+def StepOK {α : Type} (E : ErrClass → Prop) (Inv : α → Prop) (Res : Val → Prop) (r : R (α ⊕ Val)) : Prop :=
+  match r with
+  | .ok (.inl a') => Inv a'
+  | .ok (.inr v) => Res v
+  | .error e => E e
+
+def ResOK (E : ErrClass → Prop) (Res : Val → Prop) (r : R Val) : Prop :=
+  match r with
+  | .ok v => Res v
+  | .error e => E e
+
+theorem loopIdx_spec {α : Type} (Inv : α → Prop) (Res : Val → Prop) (body : Nat → α → SM (α ⊕ Val))
+    (hbody : ∀ i acc s, Inv acc → StepOK E Inv Res (body i acc s).1) :
+    ∀ fuel i acc s, Inv acc → StepOK E Inv Res (loopIdx body fuel i acc s).1 := by
+  intro fuel
+  induction fuel with
+  | zero => intro i acc s h; exact h
+  | succ fuel ih =>
+    intro i acc s h
+    have hb := hbody i acc s h
+    simp only [loopIdx, bind]
+    unfold SM.bind'
+    rcases hr : body i acc s with ⟨r, s1⟩
+    rw [hr] at hb
+    cases r with
+    | error e => exact hb
+    | ok x =>
+      cases x with
+      | inl a' => exact ih (i + 1) a' s1 hb
+      | inr v => exact hb
+
+/-- a loop followed by a final step on the accumulator (an early result is returned as it is) -/
+def loopThen {α : Type} (body : Nat → α → SM (α ⊕ Val)) (fuel : Nat) (acc0 : α) (fin : α → SM Val) : SM Val :=
+  fun s =>
+    match loopIdx body fuel 0 acc0 s with
+    | (.ok r, s') =>
+      (match r with
+        | .inl a => fin a
+        | .inr v => pure v) s'
+    | (.error e, s') => (.error e, s')
+
+theorem loopThen_spec {α : Type} (Inv : α → Prop) (Res : Val → Prop) (body : Nat → α → SM (α ⊕ Val))
+    (hbody : ∀ i acc s, Inv acc → StepOK E Inv Res (body i acc s).1)
+    (fuel : Nat) (acc0 : α) (h0 : Inv acc0) (fin : α → SM Val)
+    (hfin : ∀ a s, Inv a → ResOK E Res (fin a s).1) (s : SState) :
+    ResOK E Res (loopThen body fuel acc0 fin s).1 := by
+  have hl := loopIdx_spec (E := E) Inv Res body hbody fuel 0 acc0 s h0
+  unfold loopThen
+  rcases hL : loopIdx body fuel 0 acc0 s with ⟨r, s'⟩
+  rw [hL] at hl
+  cases r with
+  | error e => exact hl
+  | ok x =>
+    cases x with
+    | inl a => exact hfin a s' hl
+    | inr v => exact hl
+
+/-- the step of a predicate loop -/
+def predStep (c : SCfg) (ctx : Ctx) (coll : Val) (b : Node) (onTrue onFalse : Unit ⊕ Val) :
+    Nat → Unit → SM (Unit ⊕ Val) :=
+  fun i _ => do
+    if ← asBool (← eval c ((coll, (i : Int)) :: ctx) b) then pure onTrue else pure onFalse
+
+def isBoolVal (v : Val) : Prop := ∃ x, v = .bool x
+
+theorem predStep_spec (c : SCfg) (ctx : Ctx) (coll : Val) (b : Node) (t f : Unit ⊕ Val)
+    (ht : ∀ v, t = .inr v → isBoolVal v) (hf : ∀ v, f = .inr v → isBoolVal v)
+    (hb : ∀ (i : Nat) s, ResOK E isBoolVal (eval c ((coll, (i : Int)) :: ctx) b s).1)
+    (i : Nat) (acc : Unit) (s : SState) (_ : True) :
+    StepOK E (fun _ : Unit => True) isBoolVal (predStep c ctx coll b t f i acc s).1 := by
+  have h := hb i s
+  simp only [predStep, bind]
+  unfold SM.bind'
+  rcases hev : eval c ((coll, (i : Int)) :: ctx) b s with ⟨r, s1⟩
+  rw [hev] at h
+  cases r with
+  | error e => exact h
+  | ok v =>
+    obtain ⟨x, rfl⟩ := h
+    cases x <;> simp only [asBool, SM.pure', pure]
+    · cases f with
+      | inl u => trivial
+      | inr v => exact hf v rfl
+    · cases t with
+      | inl u => trivial
+      | inr v => exact ht v rfl
+
+/-- the closure's body evaluated at element `i` of `coll` -/
+theorem body_at {cs : List OTy} {collT : OTy} {k : RKind} (c : SCfg) (b : Node) (Vb : VTy)
+    (hk : sliceElemKind collT = some k)
+    (hbody : EvalOKV E (CtxFor (collT :: cs)) c b Vb)
+    (coll : Val) (hcoll : ArrOf coll k) (i : Int) (ctx : Ctx) (s : SState) :
+    match (eval c ((coll, i) :: ctx) b s).1 with
+    | .ok v => ValOfV v Vb
+    | .error e => E e :=
+  hbody ((coll, i) :: ctx) ⟨k, hk, hcoll⟩ s
+
+theorem loopIdx_spec_eq {α : Type} (Inv : α → Prop) (Res : Val → Prop) (body : Nat → α → SM (α ⊕ Val))
+    (hbody : ∀ i acc s, Inv acc → StepOK E Inv Res (body i acc s).1)
+    (fuel i : Nat) (acc : α) (s : SState) (r : R (α ⊕ Val)) (s' : SState)
+    (h : loopIdx body fuel i acc s = (r, s')) (h0 : Inv acc) : StepOK E Inv Res r := by
+  have := loopIdx_spec (E := E) Inv Res body hbody fuel i acc s h0
+  rw [h] at this; exact this
+
+/-
+Not done here: the final assembly for the collection builtins (`all none any one count filter map`):
+the loop lemmas above (`loopIdx_spec`, `loopThen_spec`, `predStep_spec`, `body_at`) are what it needs; the
+remaining work is to bring `Spec.eval` on a builtin node into the `loopThen (predStep …)` form (an
+equation that holds by `rfl` after `simp only [eval]`, checked for `all`) and the induction over the
+extended fragment (`Spec2` for unary / binary / conditional through `spec2_to_frag` / `frag_to_spec2`).
+-/
+
 end ExprModel
